@@ -1013,7 +1013,67 @@ func lastUseOrLoad(a *ssa.Alloc) ssa.Instruction {
 // table entry: the token where the value starts, with its literal replaced by the gathered text)
 // is taken from the window BEFORE the value is gathered. Taken afterwards it is the token behind
 // the value, and the marker or error that uses it names that token's line.
+// c16cStitched: a token put together outside the lexer (a composite literal in parser or emitter)
+// takes its start — line, byte column, character column — from ONE token, and its end from one
+// token: a line from one token with the columns of another names a place where nothing stands.
+func c16cStitched(c *Ctx) {
+	n := 0
+	for _, fn := range c.W.Funcs {
+		if isTestFunc(c.W, fn) || len(fn.Blocks) == 0 || c.W.PkgShort(fn) == "lexer" || c.W.PkgShort(fn) == "token" {
+			continue
+		}
+		k := 0
+		instrs(fn, func(in ssa.Instruction) {
+			a, ok := in.(*ssa.Alloc)
+			if !ok || !typeIs(a.Type(), "token", "Token") || a.Referrers() == nil {
+				return
+			}
+			src := map[string]string{}
+			for _, r := range *a.Referrers() {
+				fa, isFA := r.(*ssa.FieldAddr)
+				if !isFA || fa.Referrers() == nil {
+					continue
+				}
+				f := fieldName(fa.X.Type(), fa.Field)
+				if !strings.HasSuffix(f, "CharIndex") && !strings.HasSuffix(f, "LineNumber") {
+					continue
+				}
+				for _, r2 := range *fa.Referrers() {
+					if st, isSt := r2.(*ssa.Store); isSt && st.Addr == ssa.Value(fa) {
+						t := c.term(fn, st.Val)
+						if i := strings.LastIndex(t, "."); i > 0 {
+							src[f] = t[:i]
+						} else {
+							src[f] = t
+						}
+					}
+				}
+			}
+			if len(src) < 2 {
+				return
+			}
+			n++
+			okStart := true
+			for _, f := range []string{"StartCharIndex", "StartUtf8CharIndex"} {
+				if src[f] != "" && src["LineNumber"] != "" && src[f] != src["LineNumber"] {
+					okStart = false
+				}
+			}
+			okEnd := true
+			for _, f := range []string{"EndCharIndex", "EndUtf8CharIndex"} {
+				if src[f] != "" && src["EndLineNumber"] != "" && src[f] != src["EndLineNumber"] {
+					okEnd = false
+				}
+			}
+			k++
+			c.Check(okStart && okEnd, fmt.Sprintf("%s/stitched-token#%d", c.W.FuncKey(fn), k), c.W.Pos(a.Pos()), "the token's start fields come from one token, its end fields from one token", fmt.Sprintf("%s puts a token together whose line and columns come from different tokens (%v): a marker or error that uses it names a line on which the construct does not start", fn.Name(), src))
+		})
+	}
+	c.OK("stitched-tokens/scanned", "-", fmt.Sprintf("%d tokens put together outside the lexer", n))
+}
+
 func c16cTokenBeforeLiteral(c *Ctx) {
+	c16cStitched(c)
 	n := 0
 	for _, fn := range c.W.FuncsOf("parser") {
 		if isTestFunc(c.W, fn) || len(fn.Blocks) == 0 {
